@@ -82,29 +82,20 @@ theorem d27class_iff (a : Dur) (ha : a.Canon) : (a.c = 0 ∧ a.ns > 0) ↔ (0 < 
 theorem display_is_render (a : Dur) (ha : a.Canon) : display a = .ok (renderValue a.val) :=
   display_spec a ha
 
-/-- the magnitude bound of the round trip, chosen as generously as the float argument allows:
-    |a| < 6 832 128 days (≈ 18 705 Julian years; the property asks for 10 000 years = 3 652 500 days).
-    The parser multiplies the printed day count by 86 400·10⁹ = 2¹⁶·1 318 359 375 in binary64; the product
-    is exact as long as days·1 318 359 375 < 2⁵³, i.e. days ≤ 6 832 127 (`max_exact_days_fact`,
-    `exact53_pow`); every other component is below 2⁵³ ns outright. -/
-theorem roundtrip_bound :
-    RT_BOUND = 6832128 * NS_PER_D - 1 ∧ 10000 * (36525 * NS_PER_D / 100) ≤ RT_BOUND ∧
-    (86400000000000 : Nat) = 2 ^ 16 * 1318359375 ∧ 6832127 * 1318359375 < 2 ^ 53 ∧ 2 ^ 53 ≤ 6832128 * 1318359375 := by
-  decide
-
-/-- ROUND TRIP: for every canonical duration of magnitude below 6 832 128 days — either sign, zero
+/-- ROUND TRIP, whole range: for EVERY canonical duration — either sign, zero, `MIN` and `MAX`
     included — `Display` does not fail and `Duration::from_str` of the text returns the identical
-    duration (identical parts, not merely `==`).  Full statement, no structural hypothesis: the proof
-    is an induction over the printed items on the byte-indexed parser model (`item_step`,
+    duration (identical parts, not merely `==`).  No magnitude bound: since fix D37 (f941bbd) every
+    printed component is a plain integer numeral and is multiplied as an integer, exactly.  (Before
+    D37 the numerals went through binary64 and the statement only held below 6 832 128 days.)
+    The proof is an induction over the printed items on the byte-indexed parser model (`item_step`,
     `pending_loop`), with `parse_offset` shown to reject every rendering (`parseOffset_err`). -/
-theorem display_parse_roundtrip (a : Dur) (ha : a.Canon) (hb : mag a.val ≤ RT_BOUND) :
-    ∃ s, display a = .ok s ∧ parseDurationIdx s = .ok a := display_parse a ha hb
+theorem display_parse_roundtrip (a : Dur) (ha : a.Canon) :
+    ∃ s, display a = .ok s ∧ parseDurationIdx s = .ok a := display_parse a ha
 
 /-- the same in the spec's words: parsing the generated text form of `v` ns gives the canonical
     duration of `v` ns -/
-theorem parse_render (a : Dur) (ha : a.Canon) (hb : mag a.val ≤ RT_BOUND) :
-    parseDurationIdx (renderValue a.val) = .ok a := by
-  obtain ⟨s, h1, h2⟩ := display_parse a ha hb
+theorem parse_render (a : Dur) (ha : a.Canon) : parseDurationIdx (renderValue a.val) = .ok a := by
+  obtain ⟨s, h1, h2⟩ := display_parse a ha
   rw [display_spec a ha] at h1
   simp only [Res.ok.injEq] at h1
   rw [h1]; exact h2
@@ -112,15 +103,17 @@ theorem parse_render (a : Dur) (ha : a.Canon) (hb : mag a.val ≤ RT_BOUND) :
 /-- serde: the serialized form is the text form as a JSON string and deserialization is `from_str`
     of the payload (serde_json trusted as the identity on a payload without escapes), so the serde
     round trip is `parse_render`; the driver checks the real serde_json on every `djson*` case. -/
-theorem serde_payload_roundtrip (a : Dur) (ha : a.Canon) (hb : mag a.val ≤ RT_BOUND) :
+theorem serde_payload_roundtrip (a : Dur) (ha : a.Canon) :
     ∃ s, renderJson a.val = [34] ++ s ++ [34] ∧ parseDurationIdx s = .ok a :=
-  ⟨renderValue a.val, rfl, parse_render a ha hb⟩
+  ⟨renderValue a.val, rfl, parse_render a ha⟩
 
-/-- within ±10 000 Julian years in particular -/
-theorem display_parse_roundtrip_10000y (a : Dur) (ha : a.Canon)
-    (hb : mag a.val ≤ 10000 * 365 * NS_PER_D + 2500 * NS_PER_D) :
-    ∃ s, display a = .ok s ∧ parseDurationIdx s = .ok a :=
-  display_parse a ha (by unfold NS_PER_D at hb; simp only [RT_BOUND]; omega)
+/-- the bounds themselves round-trip: "-1196851200 days" is `MIN` -/
+theorem roundtrip_at_the_bounds :
+    display Dur.MAX = .ok [49, 49, 57, 54, 56, 53, 49, 50, 48, 48, 32, 100, 97, 121, 115] ∧
+    parseDurationIdx [49, 49, 57, 54, 56, 53, 49, 50, 48, 48, 32, 100, 97, 121, 115] = .ok Dur.MAX ∧
+    display Dur.MIN = .ok [45, 49, 49, 57, 54, 56, 53, 49, 50, 48, 48, 32, 100, 97, 121, 115] ∧
+    parseDurationIdx [45, 49, 49, 57, 54, 56, 53, 49, 50, 48, 48, 32, 100, 97, 121, 115] = .ok Dur.MIN := by
+  decide +kernel
 
 -- ------------------------------------------------------------------------------------------
 -- offsets
@@ -165,33 +158,51 @@ theorem units_prefix_pairs :
 theorem units_prefix_same_unit : ∀ p ∈ prefixPairs Gen.DUR_UNITS, p.1.2 = p.2.2 := by decide
 
 /-- "Parsing also accepts the documented unit spellings … with the value they denote": for EVERY
-    spelling of the table (the 21 documented ones, "μs", and hr/minutes/sec) and every positive integer
-    numeral `n`, `from_str("<n> <spelling>")` is the canonical duration of exactly `n` units — under
-    the explicit decidable hypothesis that the product is exactly representable in binary64
-    (`exact53`) and in the Duration range.  (Fractional numerals: measured, see the driver's oracle.) -/
-theorem spelling_value (p : String × Int) (hp : p ∈ spellings ++ extraSpellings) (n : Nat)
-    (hn : 0 < n) (hlt : n < 9007199254740992)
-    (he : exact53 128 ((n : Int) * p.2).natAbs = true) (hb : (n : Int) * p.2 ≤ 103407943680000000000000) :
-    ∃ r, parseDurationIdx (numeral n ++ [32] ++ codes p.1) = .ok r ∧ r.Canon ∧ r.val = (n : Int) * p.2 := by
+    spelling of the table (the 21 documented ones, "μs", and hr/minutes/sec), EVERY integer numeral
+    that fits an i128 (any number of leading-zero-free digits up to 39, so far beyond i64) and either
+    sign, `from_str("[-]<n> <spelling>")` is the canonical duration of exactly clamp(±n · unit):
+    exact to the nanosecond inside the Duration range, saturated outside.  No representability
+    hypothesis (fix D37: integer numerals are multiplied as integers).  Fractional numerals: measured,
+    see the driver's oracle. -/
+theorem spelling_value (p : String × Int) (hp : p ∈ spellings ++ extraSpellings) (neg : Bool) (n : Nat)
+    (hn : n ≤ 170141183460469231731687303715884105727) :
+    ∃ r, parseDurationIdx ((if neg = true then [45] else []) ++ (numeral n ++ [32] ++ codes p.1)) = .ok r ∧
+      r.Canon ∧ r.val = clampD ((if neg = true then -(n : Int) else (n : Int)) * p.2) := by
   obtain ⟨hgood, hslot⟩ := spellings_good p hp
   obtain ⟨hg, hedge⟩ := goodName_of_B _ hgood
-  rw [← decDigits_eq_numeral]
-  rw [← hslot] at he hb ⊢
-  exact parse_single n (codes p.1) hn hlt hg hedge he hb
+  rw [← decDigits_eq_numeral, ← hslot]
+  exact parse_single neg n (codes p.1) hn hg hedge
 
-/-- in particular whenever the number of nanoseconds itself is below 2⁵³ (≈ 104 days) -/
-theorem spelling_value_small (p : String × Int) (hp : p ∈ spellings ++ extraSpellings) (n : Nat)
-    (hn : 0 < n) (hs : (n : Int) * p.2 < 9007199254740992) :
-    ∃ r, parseDurationIdx (numeral n ++ [32] ++ codes p.1) = .ok r ∧ r.Canon ∧ r.val = (n : Int) * p.2 := by
+/-- in particular every i64 value, with no clamping when the product is within the Duration range -/
+theorem spelling_value_i64 (p : String × Int) (hp : p ∈ spellings ++ extraSpellings) (neg : Bool) (n : Nat)
+    (hn : n ≤ 9223372036854775807) (hr : (n : Int) * p.2 ≤ 103407943680000000000000) :
+    ∃ r, parseDurationIdx ((if neg = true then [45] else []) ++ (numeral n ++ [32] ++ codes p.1)) = .ok r ∧
+      r.Canon ∧ r.val = (if neg = true then -(n : Int) else (n : Int)) * p.2 := by
+  obtain ⟨r, h1, h2, h3⟩ := spelling_value p hp neg n (by omega)
+  refine ⟨r, h1, h2, ?_⟩
+  rw [h3]
   have hall : ∀ q ∈ spellings ++ extraSpellings, 1 ≤ q.2 := by decide
-  have hp2 : 1 ≤ p.2 := hall p hp
-  have hlt : n < 9007199254740992 := by
-    have : (n : Int) ≤ (n : Int) * p.2 := by
-      have := Int.mul_le_mul_of_nonneg_left hp2 (Int.natCast_nonneg n)
-      simpa using this
-    omega
+  have hp2 := hall p hp
   have h0 : 0 ≤ (n : Int) * p.2 := Int.mul_nonneg (Int.natCast_nonneg n) (by omega)
-  exact spelling_value p hp n hn hlt (exact53_small _ _ (by omega)) (by omega)
+  cases neg with
+  | false => simp only [Bool.false_eq_true, if_false]; exact clampD_mid (by omega) hr
+  | true =>
+    simp only [if_true]
+    rw [Int.neg_mul]
+    exact clampD_mid (by omega) (by omega)
+
+/-- the witnesses of D37 (numerals that the binary64 evaluation got wrong) are exact now:
+    "4611686019 s", "9007199254740993 ns", "3155760000000000001 ns", "6832129 days" -/
+theorem integer_numeral_witnesses :
+    parseDurationIdx [52, 54, 49, 49, 54, 56, 54, 48, 49, 57, 32, 115] = .ok ⟨1, 1455926019000000000⟩ ∧
+    parseDurationIdx [57, 48, 48, 55, 49, 57, 57, 50, 53, 52, 55, 52, 48, 57, 57, 51, 32, 110, 115] = .ok ⟨0, 9007199254740993⟩ ∧
+    parseDurationIdx [51, 49, 53, 53, 55, 54, 48, 48, 48, 48, 48, 48, 48, 48, 48, 48, 48, 48, 49, 32, 110, 115] = .ok ⟨1, 1⟩ ∧
+    parseDurationIdx [54, 56, 51, 50, 49, 50, 57, 32, 100, 97, 121, 115] = .ok ⟨187, 168825600000000000⟩ := by
+  decide +kernel
+
+/-- the white-space table dumped from the linked Rust std (what `trim` removes) is Unicode White_Space
+    as written in the spec -/
+theorem whitespace_pinned : Gen.WHITESPACE = whiteSpace := by decide
 
 /-- `Duration::subdivision(unit)`: the component times its unit; `None` exactly for Week and Century -/
 theorem subdivision_value (a : Dur) (ha : a.Canon) :
@@ -204,25 +215,17 @@ theorem subdivision_value (a : Dur) (ha : a.Canon) :
     (∃ r, subdivision a "ns" = .ok (some r) ∧ r.Canon ∧ r.val = (decomp a.val).2.2.2.2.2.2 * 1) ∧
     subdivision a "wk" = .ok none ∧ subdivision a "cy" = .ok none := subdivision_spec a ha
 
-/-- the bound of the round trip cannot be pushed further: the duration of 6 832 129 days prints as
-    "6832129 days" and parses back 65 536 ns too long (the binary64 product is rounded) -/
-theorem roundtrip_bound_sharp :
-    display ⟨187, 168825600000000000⟩ = .ok [54, 56, 51, 50, 49, 50, 57, 32, 100, 97, 121, 115] ∧
-    parseDurationIdx [54, 56, 51, 50, 49, 50, 57, 32, 100, 97, 121, 115] = .ok ⟨187, 168825600000065536⟩ ∧
-    (Dur.mk 187 168825600000000000).val = 6832129 * NS_PER_D := by decide +kernel
-
 -- non-vacuity
 example : (Dur.mk (-3) 17).Canon ∧ (Dur.mk 32767 NPC).Canon ∧ (Dur.mk (-32768) 0).Canon := by
   unfold Dur.Canon; simp only [NPC_eq]; decide
 example : ¬ ((Dur.mk (-1) 5).c = 0 ∧ (Dur.mk (-1) 5).ns > 0) ∧ ¬ ((Dur.mk 7 5).c = 0 ∧ (Dur.mk 7 5).ns > 0) := by decide
-example : ("minutes", NS_PER_MIN) ∈ spellings ++ extraSpellings ∧ exact53 128 ((7 : Int) * NS_PER_MIN).natAbs = true := by decide
+example : ("minutes", NS_PER_MIN) ∈ spellings ++ extraSpellings ∧ (4611686019 : Nat) ≤ 9223372036854775807 := by decide
 -- "-01:15:30" and "+3615" of the rustdoc
 example : readOffset [45, 48, 49, 58, 49, 53, 58, 51, 48] = some (-(4530 * NS_PER_S)) := by decide
 example : readOffset [43, 51, 54, 49, 53] = some ((36 * 3600 + 15 * 60) * NS_PER_S) := by decide
 -- the Display of −99 µs ("-99 μs", once parsed as −99 h) and of MIN_POSITIVE
 example : display ⟨-1, 3155759999999901000⟩ = .ok [45, 57, 57, 32, 956, 115] := by decide
 example : parseDurationIdx [45, 57, 57, 32, 956, 115] = .ok ⟨-1, 3155759999999901000⟩ := by decide
-example : mag (Dur.mk (-1) 3155759999999901000).val ≤ RT_BOUND ∧ mag (Dur.mk 186 0).val ≤ RT_BOUND := by decide
 example : IsDecomp (-90061001002003) 1 1 1 1 1 2 3 := by
   unfold IsDecomp InRange weighted mag NS_PER_D NS_PER_H NS_PER_MIN NS_PER_S NS_PER_MS NS_PER_US; decide
 
